@@ -19,3 +19,18 @@ Theorem C04_negate_complement_python_evaluation :
     defined W p x = true -> ev W (negate p) x = option_map negb (ev W p x).
 Proof. exact negate_complement_ev. Qed.
 Print Assumptions C04_negate_complement_python_evaluation.
+
+(* negate is an involution on meanings: negate(negate(p)) is defined wherever p is and agrees with p *)
+Theorem C04_negate_twice_is_identity_on_meanings :
+  forall (W : world) (p : pred) (x : val),
+    defined W p x = true ->
+    defined W (negate (negate p)) x = true /\ beval W (negate (negate p)) x = beval W p x.
+Proof. exact negate_negate. Qed.
+Print Assumptions C04_negate_twice_is_identity_on_meanings.
+
+(* p and negate(p) partition the domain of p: exactly one of them accepts x *)
+Theorem C04_negate_partitions_the_domain :
+  forall (W : world) (p : pred) (x : val),
+    defined W p x = true -> xorb (beval W p x) (beval W (negate p) x) = true.
+Proof. exact negate_partition. Qed.
+Print Assumptions C04_negate_partitions_the_domain.
